@@ -32,7 +32,7 @@ type httpReply struct {
 // peer is a peer returned by a tracker.
 type peer struct {
 	IP   string `bencode:"ip"`
-	Port uint16 `bencode:"port"`
+	Port int    `bencode:"port"`
 }
 
 // Announce performs an HTTP announce over both IPv4 and IPv6 in parallel.
@@ -182,9 +182,12 @@ func announceHTTP(ctx context.Context, protocol string, tracker *HTTP,
 		err = bencode.DecodeBytes(reply.Peers, &peers)
 		if err == nil {
 			for _, p := range peers {
+				if p.Port < 0 || p.Port > 0xFFFF {
+					continue
+				}
 				ip, err := netip.ParseAddr(p.IP)
 				if err == nil {
-					f(netip.AddrPortFrom(ip, p.Port))
+					f(netip.AddrPortFrom(ip, uint16(p.Port)))
 				}
 			}
 		}
